@@ -56,8 +56,22 @@ fn main() {
         let _ = eval_on(&calc, c["lang"].as_str().unwrap_or("en"), c["text"].as_str().unwrap_or(""));
         return;
     }
+    if args[0] == "fuzz-dict" {
+        print!("{}", vlib::fuzzdec::dictionary());
+        return;
+    }
     if args[0] == "--replay" {
-        let body: serde_json::Value = serde_json::from_str(&std::fs::read_to_string(&args[1]).expect("read replay file")).expect("replay file is not JSON");
+        let raw = std::fs::read(&args[1]).expect("read replay file");
+        let body: serde_json::Value = match std::str::from_utf8(&raw).ok().and_then(|s| serde_json::from_str::<serde_json::Value>(s).ok()).filter(|j| j.get("property").is_some()) {
+            Some(j) => j,
+            None => {
+                // a raw libFuzzer artefact: <ID>-fuzz-<seed>-crash-<hash>
+                let name = std::path::Path::new(&args[1]).file_name().map(|s| s.to_string_lossy().to_string()).unwrap_or_default();
+                let id = name.split('-').next().unwrap_or("").to_string();
+                let hex: String = raw.iter().map(|b| format!("{:02x}", b)).collect();
+                serde_json::json!({"property": id, "sub": "fuzz", "case": {"id": id, "hex": hex}})
+            }
+        };
         let id = vlib::static_id(body["property"].as_str().unwrap_or("")).expect("unknown property in replay file");
         let ctx = engine::Ctx::new(id, engine::Tier::Quick);
         let slot = std::sync::Arc::new(engine::WatchSlot { current: std::sync::Mutex::new(None) });
